@@ -249,7 +249,7 @@ func (obj SparseConstInt16Vector) ITERATOR() *SparseConstInt16VectorIterator {
   return &r
 }
 func (obj SparseConstInt16Vector) ITERATOR_FROM(i int) *SparseConstInt16VectorIterator {
-  k := 0
+  k := len(obj.indices)
   for j, idx := range obj.indices {
     if idx >= i {
       k = j
